@@ -55,6 +55,26 @@ theorem log2cpm_scale (f : Rat → Rat) (m : CBG) (ks : List Rat) (hlen : ks.len
   unfold CBG.toLog2CPM
   simp only [key m.data ks hlen hk hnn]
 
+/-- "multiplying a raw cell by any positive constant does not change its
+mapping" — at the matrix the mapper receives: the prepared chunk of the scaled
+raw matrix (own positive factor per cell) is the prepared chunk of the matrix. -/
+theorem prepare_chunk_scale (f : Rat → Rat) (data : List (List Rat)) (width : Nat) (genes allM : List Gene)
+    (ks : List Rat) (hlen : ks.length = data.length) (hk : ∀ k ∈ ks, 0 < k)
+    (hnn : ∀ row ∈ data, ∀ v ∈ row, 0 ≤ v) :
+    prepareChunk f ((data.zip ks).map (fun p => p.1.map (fun v => p.2 * v))) width genes .raw allM =
+      prepareChunk f data width genes .raw allM := by
+  unfold prepareChunk CBG.make
+  by_cases hw : (genes.length != width) = true
+  · simp [hw]
+  · by_cases hd : RawTree.hasDup genes = true
+    · simp [hw, hd]
+    · have hne : (Norm.raw != Norm.log2CPM) = true := by decide
+      simp only [hw, hd, Bool.false_eq_true, if_false, hne, if_true]
+      have := log2cpm_scale f { data := data, genes := genes, norm := .raw } ks hlen hk hnn
+      simp only at this
+      rw [this]
+
+
 /-! ## gene order, extra genes: columns are addressed by name -/
 
 /-- "Permuting the gene columns of the query file together with their names ...
